@@ -3,7 +3,7 @@ use vstd::prelude::*;
 use vstd::std_specs::iter::IteratorSpec;
 verus! {
 //@include spec/prelude.rs
-broadcast use {axiom_string_ext, axiom_str_ext, axiom_str_of, axiom_vec_ext, axiom_vec_of, axiom_display_string, axiom_display_str, axiom_display_usize};
+broadcast use {axiom_string_ext, axiom_str_ext, axiom_str_of, axiom_vec_ext, axiom_vec_of, axiom_display_string, axiom_display_str, axiom_display_usize, axiom_display_asp_variable};
 //@include spec/indexset.rs
 //@include units/fol_types.inc
 //@include spec/sem.rs
@@ -154,6 +154,7 @@ pub proof fn lemma_all_names(taken: Seq<String>, fresh: Seq<String>, c: String)
 
 //@include spec/tau_spec.rs
 //@include spec/taub_spec.rs
+//@include spec/rule_spec.rs
 
 //@fn src/translating/formula_representation/tau_star.rs :: fn construct_equality_formula
 //@ .ret r
@@ -411,6 +412,135 @@ pub open spec fn qr_free_name(n: Seq<char>) -> bool { qr_free(n) }
 //@                 implies qr_free(k.0) by {
 //@             lemma_asp_keys_general(u, k);
 //@         }
+//@     }
+//@end
+
+pub mod tb2 {
+use vstd::prelude::*;
+use super::asp;
+// T10. Display of a mini-gringo variable is its name (formatting/asp/mini_gringo/default.rs: `write!(f, "{}", self.0.0)`)
+pub broadcast axiom fn axiom_display_asp_variable(v: &asp::Variable, r: String)
+    requires #[trigger] vstd::string::to_string_from_display_ensures::<asp::Variable>(v, r),
+    ensures r@ == v.0@;
+// T11. Rust allocation limit: a Vec of mini-gringo terms (each at least 8 bytes) holds at most isize::MAX / 8 of them
+pub axiom fn axiom_terms_len(v: &Vec<asp::Term>)
+    ensures v@.len() <= isize::MAX / 8;
+} // mod tb2
+pub use tb2::*;
+
+//@fn src/translating/formula_representation/tau_star.rs :: fn tau_b_propositional_literal
+//@ .ret r
+//@ .spec
+//@     requires l.atom.terms@.len() == 0,
+//@     ensures taub_ok(r, asp::AtomicFormula::Literal(l)),
+//@ .hint before "match l.sign {"
+//@     proof {
+//@         assert forall|f: Formula| is_signed_atom(f, l.sign, l.atom.predicate_symbol@, Seq::<GeneralTerm>::empty())
+//@             implies #[trigger] taub_ok(f, asp::AtomicFormula::Literal(l)) by { lemma_prop_literal(l, f); }
+//@     }
+//@end
+
+//@fn src/translating/formula_representation/tau_star.rs :: fn tau_b_first_order_literal
+//@ .ret r
+//@ .attr #[verifier::loop_isolation(false)]
+//@ .spec
+//@     requires forall|k: VKey| terms_in(l.atom.terms@, k) ==> has_name(taken_vars@, k.0),
+//@     ensures taub_ok(r, asp::AtomicFormula::Literal(l)),
+//@ .hint before "let varnames = choose_fresh_variable_names"
+//@     proof { axiom_indexset_len(&taken_vars); axiom_terms_len(&terms); }
+//@ .loop 1 as it
+//@     invariant
+//@         d14_k0 == it.index@, 0 <= it.index@ <= terms@.len(),
+//@         it.seq().len() == terms@.len(), forall|j: int| 0 <= j < terms@.len() ==> *it.seq()[j] == terms@[j],
+//@         var_terms@.len() == it.index@, var_vars@.len() == it.index@, valtz_vec@.len() == it.index@,
+//@         forall|j: int| 0 <= j < it.index@ ==> #[trigger] var_vars@[j] == zvar(varnames@[j]),
+//@         forall|j: int| 0 <= j < it.index@ ==> #[trigger] var_terms@[j] == GeneralTerm::Variable(varnames@[j]),
+//@         forall|j: int| 0 <= j < it.index@ ==> val_ok(#[trigger] valtz_vec@[j], terms@[j], zvar(varnames@[j])),
+//@ .hint after "var_vars.push(var);"
+//@     proof {
+//@         assert(var_vars@[i as int] == zvar(varnames@[i as int]));
+//@         assert(var_terms@[i as int] == GeneralTerm::Variable(varnames@[i as int]));
+//@         assert(*t == terms@[i as int]);
+//@         assert(val_ok(valtz_vec@[i as int], terms@[i as int], zvar(varnames@[i as int])));
+//@     }
+//@ .hint before "let valtz = fol::Formula::conjoin(valtz_vec);"
+//@     let ghost names = varnames@;
+//@     let ghost vals = valtz_vec@;
+//@     proof {
+//@         lemma_fresh_parts(terms@, names, taken_vars@, "Z"@);
+//@         assert(parts_ok(terms@, names, vals));
+//@         assert(var_vars@ =~= zvars(names));
+//@         assert(var_terms@ =~= zterms(names));
+//@     }
+//@ .hint before "match l.sign {"
+//@     proof {
+//@         assert forall|f: Formula| fo_shape(f, names, vals, l.sign, l.atom.predicate_symbol@)
+//@             implies #[trigger] taub_ok(f, asp::AtomicFormula::Literal(l)) by { lemma_fo_literal(l, names, vals, taub_rhs(f), f); }
+//@     }
+//@end
+
+//@fn src/translating/formula_representation/tau_star.rs :: fn tau_b_comparison
+//@ .ret r
+//@ .spec
+//@     requires forall|k: VKey| asp_in_term(c.lhs, k) || asp_in_term(c.rhs, k) ==> has_name(taken_vars@, k.0),
+//@     ensures taub_ok(r, asp::AtomicFormula::Comparison(c)),
+//@ .hint before "let varnames = choose_fresh_variable_names"
+//@     proof { axiom_indexset_len(&taken_vars); }
+//@ .hint before "let z1_rel_z2 ="
+//@     let ghost names = varnames@;
+//@     let ghost terms = seq![c.lhs, c.rhs];
+//@     proof {
+//@         assert forall|k: VKey| terms_in(terms, k) implies has_name(taken_vars@, k.0) by {
+//@             let i = choose|i: int| 0 <= i < terms.len() && #[trigger] asp_in_term(terms[i], k);
+//@             assert(i == 0 || i == 1);
+//@         }
+//@         lemma_fresh_parts(terms, names, taken_vars@, "Z"@);
+//@         assert(exists|vals: Seq<Formula>| valtz == #[trigger] spec_conjoin(vals) && vals.len() == 2
+//@             && val_ok(vals[0], c.lhs, zvar(names[0])) && val_ok(vals[1], c.rhs, zvar(names[1])));
+//@     }
+//@     let ghost vals = choose|vals: Seq<Formula>| valtz == #[trigger] spec_conjoin(vals) && vals.len() == 2
+//@             && val_ok(vals[0], c.lhs, zvar(names[0])) && val_ok(vals[1], c.rhs, zvar(names[1]));
+//@     proof {
+//@         assert forall|i: int| 0 <= i < terms.len() implies #[trigger] val_ok(vals[i], terms[i], zvar(names[i])) by { assert(i == 0 || i == 1); }
+//@         assert(parts_ok(terms, names, vals));
+//@     }
+//@ .hint before "fol::Formula::QuantifiedFormula {"
+//@     proof {
+//@         assert(cmp1(GeneralTerm::Variable(names[0]), rel_of(c.relation), GeneralTerm::Variable(names[1]), z1_rel_z2));
+//@         assert forall|f: Formula| cmp_shape(f, names, vals, rel_of(c.relation)) implies #[trigger] taub_ok(f, asp::AtomicFormula::Comparison(c)) by {
+//@             lemma_cmp_literal(c, names, vals, taub_rhs(f), f);
+//@         }
+//@         assert(seq![zvar(names[0]), zvar(names[1])] =~= zvars(names));
+//@     }
+//@end
+
+//@fn src/translating/formula_representation/tau_star.rs :: fn tau_b
+//@ .ret r
+//@ .attr #[verifier::loop_isolation(false)]
+//@ .spec
+//@     ensures taub_ok(r, f),
+//@ .loop 1 as it
+//@     invariant
+//@         it.seq().len() == d17_t0@.len(), forall|j: int| 0 <= j < d17_t0@.len() ==> *it.seq()[j] == d17_t0@[j],
+//@         forall|j: int| 0 <= j < it.index@ ==> has_name(taken_vars@, #[trigger] d17_t0@[j].0@),
+//@ .hint before "taken_vars.insert(fol::Variable {"
+//@     proof {
+//@         assert forall|tk: Seq<Variable>, x: Variable, n: Seq<char>| has_name(tk, n) || x.name@ == n implies #[trigger] has_name(seq_insert(tk, x), n) by {
+//@             lemma_has_name_insert(tk, x, n);
+//@         }
+//@     }
+//@ .endloop 1
+//@     proof {
+//@         assert forall|k: VKey| af_in(f, k) implies has_name(taken_vars@, k.0) by {
+//@             let j = choose|j: int| 0 <= j < d17_t0@.len() && #[trigger] asp_var_key(d17_t0@[j]) == k;
+//@             assert(has_name(taken_vars@, d17_t0@[j].0@));
+//@         }
+//@     }
+//@ .hint before "match f {"
+//@     proof {
+//@         assert forall|k: VKey| f is Literal && #[trigger] terms_in(f->Literal_0.atom.terms@, k) implies has_name(taken_vars@, k.0) by { assert(af_in(f, k)); }
+//@         assert forall|k: VKey| f is Comparison && #[trigger] asp_in_term(f->Comparison_0.lhs, k) implies has_name(taken_vars@, k.0) by { assert(af_in(f, k)); }
+//@         assert forall|k: VKey| f is Comparison && #[trigger] asp_in_term(f->Comparison_0.rhs, k) implies has_name(taken_vars@, k.0) by { assert(af_in(f, k)); }
 //@     }
 //@end
 
